@@ -50,9 +50,10 @@ impl Parser for StructLike {
                 tag("}"),
                 opt(blank),
                 opt(Annotations::parse),
+                opt(blank),
                 opt(list_separator),
             )),
-            |(name, _, _, fields, _, _, _, annotations, _)| StructLike {
+            |(name, _, _, fields, _, _, _, annotations, _, _)| StructLike {
                 name,
                 fields,
                 annotations: annotations.unwrap_or_default(),
